@@ -1,9 +1,9 @@
 (* Executable model of eqlog's error-excerpt renderer (property C11).
 
-   Sources:  /repo/eqlog/src/source_display.rs   line_locations, intersecting_line_locations,
+   Sources:  /repo/eqlog/src/source_display.rs   line_locations, intersecting_line_locations (1a1b946),
                                                  impl Display for SourceDisplay
              /repo/eqlog/src/grammar_util.rs     Location, Location::intersect
-             /repo/eqlog/src/build.rs            whipe_comments
+             /repo/eqlog/src/build.rs            whipe_comments (commit 85b4372)
              /repo/eqlog/src/error.rs            SourceDisplay { source_path: Some(..), underlined: true, .. }
 
    Strings are byte lists ([list N], every element < 256; nothing below depends on that bound).
@@ -96,6 +96,14 @@ Definition intersect (x y : N * N) : option (N * N) :=
 Definition intersects (x y : N * N) : bool :=
   match intersect x y with Some _ => true | None => false end.
 
+(* source_display.rs (commit 1a1b946): the closure `intersects` of intersecting_line_locations.  An
+   empty line intersects a non-empty location only if it lies inside of it, not if it merely touches
+   its end (the previous closure, plain Location::intersect, is kept in Regress.v).              *)
+Definition line_hits (l loc : N * N) : bool :=
+  if loc_is_empty l && negb (loc_is_empty loc)
+  then (fst loc <=? fst l) && (fst l <? snd loc)
+  else intersects l loc.
+
 (* ------------------------------------------------------------------------------------------ *)
 (* Iterator adaptors                                                                            *)
 
@@ -129,9 +137,9 @@ Definition opt_list {A} (o : option A) : list A :=
 (* source_display.rs: intersecting_line_locations (zero-based line index, line location)         *)
 Definition intersecting_line_locations (loc : N * N) (src : list N) : list (N * (N * N)) :=
   let L := line_locations src in
-  let hits := fun il : N * (N * N) => intersects (snd il) loc in
+  let hits := fun il : N * (N * N) => line_hits (snd il) loc in
   let fallback :=
-    if existsb (fun l => intersects l loc) L then None
+    if existsb (fun l => line_hits l loc) L then None
     else last_opt (take_while (fun il : N * (N * N) => (fst il =? 0) || (fst (snd il) <=? fst loc))
                               (enumerate_from 0 L)) in
   take_while hits (skip_while (fun il => negb (hits il)) (enumerate_from 0 L)) ++ opt_list fallback.
@@ -249,16 +257,19 @@ Definition render (src : list N) (loc : N * N) (path : option (list N)) (u : boo
 Definition first_line_number (src : list N) (loc : N * N) : N := first_num_of (nums_locs loc src).
 
 (* ------------------------------------------------------------------------------------------ *)
-(* build.rs: whipe_comments.  str::lines() = split_inclusive('\n') where each piece loses a final
-   "\n" and then, only if it had one, a final "\r".                                              *)
+(* build.rs: whipe_comments (as repaired in /repo commit 85b4372; the previous version, built on
+   str::lines() and join("\n"), is kept in Regress.v as whipe_comments_old).
 
-Definition str_line (seg : list N) : list N :=
-  match strip_suffix LF seg with
-  | None => seg
-  | Some l => unwrap_or (strip_suffix CR l) l
-  end.
-
-Definition str_lines (s : list N) : list (list N) := map str_line (split_inclusive s).
+     for segment in source.split_inclusive('\n') {
+         let line = segment.strip_suffix('\n').unwrap_or(segment);
+         let line = line.strip_suffix('\r').unwrap_or(line);
+         let terminator = &segment[line.len()..];
+         match line.find("//") {
+             Some(i) => { result.push_str(&line[0..i]); for _ in i..line.len() { result.push(' '); } }
+             None => result.push_str(line),
+         }
+         result.push_str(terminator);
+     }                                                                                           *)
 
 (* line.find("//") *)
 Fixpoint find_comment (l : list N) : option nat :=
@@ -277,13 +288,11 @@ Definition whipe_line (l : list N) : list N :=
   | None => l
   end.
 
-Fixpoint join_lf (ls : list (list N)) : list N :=
-  match ls with
-  | [] => []
-  | l :: t => match t with [] => l | _ :: _ => l ++ LF :: join_lf t end
-  end.
+Definition whipe_segment (seg : list N) : list N :=
+  let line := line_content seg in
+  whipe_line line ++ skipn (length line) seg.
 
-Definition whipe_comments (s : list N) : list N := join_lf (map whipe_line (str_lines s)).
+Definition whipe_comments (s : list N) : list N := concat (map whipe_segment (split_inclusive s)).
 
 (* ------------------------------------------------------------------------------------------ *)
 (* Specification side (still definitions only): what a well-formed excerpt is.                  *)
@@ -321,10 +330,13 @@ Definition rows_wf (src : list N) (loc : N * N) (n : N) (k : nat) : Prop :=
   let L := line_locations src in
   1 <= n /\ n <= N.max 1 (len L) /\
   (N.to_nat (n - 1) + k <= length L)%nat /\
-  if existsb (fun l => intersects l loc) L
+  if existsb (fun l => line_hits l loc) L
   then (0 < k)%nat /\
-       forall j, (j < k)%nat ->
-         exists l, nth_error L (N.to_nat (n - 1) + j) = Some l /\ intersects l loc = true
+       (forall j, (j < k)%nat ->
+          exists l, nth_error L (N.to_nat (n - 1) + j) = Some l /\ line_hits l loc = true) /\
+       (* ... and the rows are the first maximal run of intersecting lines *)
+       (forall j l, (j < N.to_nat (n - 1))%nat -> nth_error L j = Some l -> line_hits l loc = false) /\
+       (forall l, nth_error L (N.to_nat (n - 1) + k) = Some l -> line_hits l loc = false)
   else match L with
        | [] => n = 1 /\ k = O
        | _ :: _ =>
@@ -379,8 +391,13 @@ Definition excerpt_wf_b (src : list N) (n : N) (texts : list (list N)) : bool :=
 Definition rows_wf_b (src : list N) (loc : N * N) (n : N) (k : nat) : bool :=
   let L := line_locations src in
   (1 <=? n) && (n <=? N.max 1 (len L)) && Nat.leb (N.to_nat (n - 1) + k) (length L)
-  && (if existsb (fun l => intersects l loc) L
-      then Nat.ltb 0 k && forallb (fun l => intersects l loc) (firstn k (skipn (N.to_nat (n - 1)) L))
+  && (if existsb (fun l => line_hits l loc) L
+      then Nat.ltb 0 k && forallb (fun l => line_hits l loc) (firstn k (skipn (N.to_nat (n - 1)) L))
+           && forallb (fun l => negb (line_hits l loc)) (firstn (N.to_nat (n - 1)) L)
+           && match nth_error L (N.to_nat (n - 1) + k) with
+              | Some l => negb (line_hits l loc)
+              | None => true
+              end
       else match L with
            | [] => (n =? 1) && Nat.eqb k 0
            | _ :: _ =>
@@ -396,3 +413,14 @@ Definition rows_wf_b (src : list N) (loc : N * N) (n : N) (k : nat) : bool :=
 (* One-based line number of byte offset o of a text: one more than the number of LFs before it. *)
 Definition count_lf (l : list N) : N := len (filter (fun c => c =? LF) l).
 Definition line_number_of (text : list N) (o : N) : N := 1 + count_lf (firstn (N.to_nat o) text).
+
+(* The position half of C11 for the model pipeline.  The parser sees [whipe_comments src]; every
+   location it produces indexes that text.  The renderer is given the ORIGINAL src (build.rs:
+   CompileErrorWithContext.source is the string read from the file).  Every byte of the text the parser
+   sees -- also a CR or LF of a line terminator, where end-of-file errors point -- should be
+   reported on the line it is on. *)
+Definition position_stmt_for (whipe : list N -> list N) (src : list N) : Prop :=
+  forall o, o < len (whipe src) ->
+            first_line_number src (o, o + 1) = line_number_of (whipe src) o.
+
+Definition position_stmt (src : list N) : Prop := position_stmt_for whipe_comments src.
